@@ -206,8 +206,15 @@ def _jump_target(op):
     return None
 
 
-def _reachable_offsets(routine):
-    """offsets of the ops of one routine that are reachable from its first op (following jumps inside the routine)"""
+def _mis_structured_text(w):
+    """the other face of a mis-structured loop / join: the text names a label it does not write, or leaves a loop it is not in"""
+    err = str(w.get("error", ""))
+    return "does not exist, but a jump to it does" in err or err.startswith(("Unexpected break_loop", "Unexpected continue", "Unexpected break"))
+
+
+def _reachable_offsets(routine, ctx_aware=True, follow_calls=True):
+    """offsets of the ops of one routine that are reachable from its first op (following jumps inside the routine).
+    ctx_aware=False: as the decompiler sees it (a flow-ending op ends the flow also when it is run under lives / object / performer)"""
     from vf.lts import FLOW_END, CTX_OPS
 
     ops = routine["ops"]
@@ -221,9 +228,9 @@ def _reachable_offsets(routine):
         seen.add(i)
         off, name, ps = ops[i][0], ops[i][1], ops[i][2]
         t = _jump_target(ops[i])
-        if t is not None and t in idx:
+        if t is not None and t in idx and (follow_calls or name != "Call"):
             stack.append(idx[t])
-        after_ctx = i > 0 and ops[i - 1][1] in CTX_OPS
+        after_ctx = ctx_aware and i > 0 and ops[i - 1][1] in CTX_OPS
         if name == "Jump" or (name in FLOW_END and not after_ctx):
             continue
         stack.append(i + 1)
@@ -244,7 +251,7 @@ def _m_unreachable_target(v):
     for ri, r in enumerate(rs):
         for o in r["ops"]:
             owner[o[0]] = ri
-    reach = [_reachable_offsets(r) for r in rs]
+    reach = [_reachable_offsets(r, ctx_aware=False) for r in rs]
     for ri, r in enumerate(rs):
         for o in r["ops"]:
             t = _jump_target(o)
@@ -282,7 +289,7 @@ def _m_self_loop(v):
     if not rs:
         return False
     w = v.get("witness") or {}
-    if w.get("clause") not in ("ii", "iii"):
+    if w.get("clause") not in ("ii", "iii") and not _mis_structured_text(w):
         return False
     byoff = {}
     nxt = {}
@@ -311,8 +318,10 @@ def _m_self_loop(v):
 
 @model("unstructured-input-class")
 def _m_unstructured(v):
-    """Trigger: the input belongs to a workload class with unstructured control flow (programs with user labels and
-    jump / call statements, random flow graphs, random special-opcode sets), as recorded by the generator. Observation:
+    """Trigger: the input belongs to a workload class with unstructured control flow (programs with user labels and jump / call
+    statements and other layouts of them, random flow graphs, random special-opcode sets: case ops without a switch, tests in
+    arbitrary cycles, a loop that is left into the head of the next loop, ...), as recorded by the generator. The more specific
+    models (K02, K04, K07, K08, K09) are consulted first. Observation:
     the structured text does not compile because of a missing label, or it compiles but behaves differently (clause ii/iii)."""
     inp = v.get("input") or {}
     if not inp.get("unstructured"):
@@ -336,7 +345,7 @@ def _m_both_outcomes_same(v):
     if not rs:
         return False
     w = v.get("witness") or {}
-    if w.get("clause") not in ("ii", "iii"):
+    if w.get("clause") not in ("ii", "iii") and not _mis_structured_text(w):
         return False
     byoff, nxt, prev = {}, {}, {}
     for r in rs:
@@ -389,3 +398,45 @@ def _m_call_pos_dropped(v):
     entry of that removed op, the first emitted op of the expansion has none."""
     w = v.get("witness") or {}
     return v.get("sig", "").startswith("call-position-only-on-dropped-first-op") and w.get("got") is None and bool(w.get("dropped_ops_with_the_call_position"))
+
+
+@model("casescenario-printed-as-value-case")
+def _m_casescenario(v):
+    """Trigger: a CaseScenario op. Observation: it comes back as CaseValue with the same parameters (the switch writer prints it as
+    an operator case, `case > 3:`, which the compiler reads as CaseValue)."""
+    rs = _spec_ops(v)
+    if not rs or not any(o[1] == "CaseScenario" for r in rs for o in r["ops"]):
+        return False
+    w = v.get("witness") or {}
+    sp, im = w.get("spec"), w.get("impl")
+    if not sp or not im or len(sp) < 3 or len(im) < 3:
+        return False
+    return sp[1] == "CaseScenario" and im[1] == "CaseValue" and list(map(_norm_param, sp[2])) == list(map(_norm_param, im[2]))
+
+
+@model("called-label-reached-only-by-the-call")
+def _m_called_only(v):
+    """Trigger: a Call op whose target op is not reachable from the first op of its routine unless the call itself is followed, and
+    which does not follow a flow-ending op either (the writer continues after `end;` / `return;` when there are calls, but not
+    after a Jump): nothing makes the writer visit it. Observation: the text calls a label it does not write."""
+    rs = _spec_ops(v)
+    if not rs:
+        return False
+    w = v.get("witness") or {}
+    if "does not exist, but a jump to it does" not in str(w.get("error", "")):
+        return False
+    from vf.lts import FLOW_END
+
+    for r in rs:
+        reach = _reachable_offsets(r, ctx_aware=False, follow_calls=False)
+        prev = {o[0]: (r["ops"][i - 1] if i else None) for i, o in enumerate(r["ops"])}
+        own = {o[0] for o in r["ops"]}
+        for o in r["ops"]:
+            if o[1] == "Call":
+                t = _jump_target(o)
+                if t in own and t not in reach and o[0] in reach:
+                    # walk back over ops that are themselves only reachable by falling through from a flow end
+                    p = prev[t]
+                    if p is None or p[1] not in FLOW_END:
+                        return True
+    return False
